@@ -269,12 +269,20 @@ func (s *Store) CARootSetCAS(idx, cidx uint64, rs []*structs.CARoot) (bool, erro
 	defer tx.Abort()
 
 	if err := caRootSetCASTxn(tx, idx, cidx, rs); err != nil {
+		if err == errCARootsIndexMismatch {
+			// Nothing was written: report that the set did not happen.
+			return false, nil
+		}
 		return false, err
 	}
 
 	err := tx.Commit()
 	return err == nil, err
 }
+
+// errCARootsIndexMismatch is returned by caRootSetCASTxn when the roots table
+// index is not the one the caller expected; nothing has been written then.
+var errCARootsIndexMismatch = errors.New("CA roots index does not match")
 
 func caRootSetCASTxn(tx WriteTxn, idx, cidx uint64, rs []*structs.CARoot) error {
 	// There must be exactly one active CA root.
@@ -290,7 +298,7 @@ func caRootSetCASTxn(tx WriteTxn, idx, cidx uint64, rs []*structs.CARoot) error 
 
 	// Get the current max index
 	if midx := maxIndexTxn(tx, tableConnectCARoots); midx != cidx {
-		return nil
+		return errCARootsIndexMismatch
 	}
 
 	// Go through and find any existing matching CAs so we can preserve and
